@@ -690,6 +690,9 @@ public:
             o["pi"] = (int64_t)p->getFunctionScopeIndex();
         } else if (auto* v = dyn_cast<VarDecl>(d)) {
             k = v->hasGlobalStorage() ? "global" : "local";
+            if (v->isStaticLocal()) {
+                o["sl"] = true;   // function-local static / thread_local: a named object of this function
+            }
             if (v->hasGlobalStorage()) {
                 o["qn"] = v->getQualifiedNameAsString();
                 o["tls"] = v->getTLSKind() != VarDecl::TLS_None;
